@@ -450,6 +450,8 @@ _mk("faults", runner_projection(class_view), runner_features(1, 4), no_panic_ora
 _mk("snap", runner_projection(flow_view, with_slog=True), runner_features(1, 4))
 _mk("cmds", cmd_log_projection, runner_features(0, 4, need=["cmd"]))
 _mk("convcmds", cmd_log_projection, runner_features(0, 4, need=["cmd"]))
+FAMILIES["cmds"]["retry_transient"] = True       # <<wait 0.03>> on real timers inside scheduled scripts
+FAMILIES["convcmds"]["retry_transient"] = True
 _mk("visits", runner_projection(flow_view), runner_features(0, 5, need=["jump"]))
 
 PROPERTIES["C03"] = {
@@ -524,7 +526,7 @@ def waits_features(case):
 
 
 FAMILIES["waits"] = {"oracle": waits_oracle, "features": waits_features, "project": waits_projection,
-                     "shrink": lambda c: [], "always_oracle": True}
+                     "shrink": lambda c: [], "always_oracle": True, "retry_transient": True}
 
 PROPERTIES["C10"] = {
     "families": [("cmds", 200, 4000), ("convcmds", 200, 4000), ("waits", 160, 3000)],
